@@ -174,10 +174,14 @@ def _run_case(spec):
             res['construct_error'] = 'first forward: %s: %s' % (type(ex).__name__, str(ex)[:160])
             return res
         res['import_diff'] = _allclose(y0, y1)
-        with torch.no_grad():
-            e0 = pit.export().eval()
-            pitgen.copy_bn_stats(pit, e0)
-            res['export0_diff'] = _allclose(y0, e0(*xs))
+        try:
+            with torch.no_grad():
+                e0 = pit.export().eval()
+                pitgen.copy_bn_stats(pit, e0)
+                res['export0_diff'] = _allclose(y0, e0(*xs))
+        except Exception as ex:
+            res['construct_error'] = 'export() right after import: %s: %s' % (type(ex).__name__, str(ex)[:160])
+            return res
         arch0 = []
         for i, ins in enumerate(prog):
             if ins[0] in ('conv', 'dw', 'lin'):
